@@ -854,7 +854,9 @@ def freshness(ctx):
 def real_builds(ctx):
     """Thorough tier: neighbour pairs really compiled, both orders in one process each."""
     pairs = [
-        ("V = parse_vf('sin(x[0]) * u * v * dx', kvs, args={})", "V = parse_vf('cos(x[0]) * u * v * dx', kvs, args={})"),
+        # (sqrt/abs rather than sin/cos: with -O3 -ffast-math -march=native gcc vectorises sin/cos/exp into libmvec
+        #  calls (_ZGVdN4v_sin) that the extension is not linked against here -- an import failure that belongs to C01)
+        ("V = parse_vf('sqrt(1 + x[0]) * u * v * dx', kvs, args={})", "V = parse_vf('abs(1 + x[0]) * u * v * dx', kvs, args={})"),
         ("V = parse_vf('-1 * x[0] * u * v * dx', kvs, args={})", "V = parse_vf('-2 * x[0] * u * v * dx', kvs, args={})"),
         ("V = parse_vf('2 * u * v * dx', kvs, args={})", "V = parse_vf('u * v * dx', kvs, args={})"),
     ]
@@ -1005,10 +1007,10 @@ META = {
                   'from scratch gives (cache_returns_requested); equal source gives equal module name and the disk level returns the requested module '
                   '(disk_name_functional, disk_cache_returns_requested under digest injectivity); a shipped run of statements accepted by reorder_ok computes the same '
                   'values as the regenerated run for every meaning of the statements (reorder_sound). The table is regenerated from /repo\'s vform.py on every run and '
-                  '`covers` re-checked; the model key relation is compared exactly with vf.hash() on all pairs inside ~25 case files, the memo model\'s hit/miss trace '
-                  'with compile_vform on ~300 request sequences, Model.inthash/floathash with the interpreter\'s hash() on ~400 numbers; the property (equal hash => '
+                  '`covers` re-checked; the model key relation is compared exactly with vf.hash() on all pairs inside ~20 case files (~27000 pairs, quick tier), the memo model\'s hit/miss trace '
+                  'with compile_vform on ~280 request sequences, Model.inthash/floathash with the interpreter\'s hash() on 310 numbers; the property (equal hash => '
                   'identical generated source, every request returns the requested form\'s source, shipped code = generator output up to reorder_ok, module name = digest) '
-                  'is evaluated directly on the implementation over ~1000 forms incl. all one-token mutants.',
+                  'is evaluated directly on the implementation over ~900 forms (quick; ~4000 thorough) incl. their one-token mutants; thorough tier also really compiles 3 neighbour pairs in both orders.',
     'level_note': 'Partial: "generated source is a function of the code-relevant attributes" is not proved (the generator is not modelled); it is covered by the '
                   'conservative attribute table + the all-pairs comparison of generate() texts. Idealised: str/type/tuple hash and SHAKE-128/8 injective. '
                   'Trusted: translator (fail-closed ast walk), derived-attribute table, statement interner of the freshness certificate, harness generators.',
